@@ -22,6 +22,7 @@ package main
 // called by the program from inside the blocks; they see the interpreter's thread id.
 
 import (
+	"encoding/json"
 	"fmt"
 	"os"
 	"runtime"
@@ -484,7 +485,7 @@ func c12Exec(payload string) string {
 	switch mode {
 	case "S":
 		nSink = threads
-	case "D":
+	case "D", "G": // G = D with a debugger attached whose lock state is polled all the time
 		nDirect = threads
 	default: // M, L
 		nSink = threads / 2
@@ -537,6 +538,31 @@ func c12Exec(payload string) string {
 		}
 		doneMu.Unlock()
 	}
+
+	stopPoll := make(chan struct{})
+	var pollWg sync.WaitGroup
+	if mode == "G" {
+		// the debugger gets the owner table from every evaluated node (SetLockingState) and hands
+		// it out through LockState(), which `##status`-like commands JSON-encode
+		dbg := interpreter.NewECALDebugger(vs)
+		erp.Debugger = dbg
+		for k := 0; k < 3; k++ {
+			pollWg.Add(1)
+			go func() {
+				defer pollWg.Done()
+				for {
+					select {
+					case <-stopPoll:
+						return
+					default:
+						json.Marshal(dbg.LockState())
+						runtime.Gosched()
+					}
+				}
+			}()
+		}
+	}
+	defer func() { close(stopPoll); pollWg.Wait() }()
 
 	var oldIDs []uint64
 	if mode == "L" {
@@ -910,7 +936,7 @@ var c12Bound = 6 * time.Second
 
 func init() {
 	register("C12", &Prop{
-		Timeout: 300 * time.Second,
+		Timeout: 120 * time.Second,
 		Setup:   c12Setup,
 		Run:     c12Exec,
 		Tool:    c12Tool,
@@ -972,6 +998,17 @@ func init() {
 				emit("S", n, 1, "a!r()|c!e()")
 				emit("S", n, 1, "bn(b!b())|c!n()")
 				g.Count("rendezvous in sinks")
+			}
+			// a debugger is attached and its view of the owner table is read all the time
+			for _, n := range []int{16, 16, 16} {
+				emit("G", n, 60, "an()bn()|bn(cn())")
+				g.Count("debugger lock state polled")
+			}
+			if g.Thorough() || g.Tier == "amplified" {
+				for k := 0; k < 4; k++ {
+					emit("G", 16, 150, "an()bn()|bn(cn())")
+					g.Count("debugger lock state polled")
+				}
 			}
 			// an error / a Go panic that ENDS the thread while it holds the lock (nested too)
 			for _, mode := range []string{"D", "S", "M", "L"} {
